@@ -7,10 +7,47 @@ S->C : calculate_posterior, calculate_posterior_mean, marginal_likelihood, margi
 """
 import numpy as np
 
-from harness.core import Check, run_tlc, must_pass
+from harness.core import Check, run_tlc, must_pass, seed
 from harness import gpexact as GE
 from harness import gpkit as G
 from harness import symlin as SL
+
+
+def square_part(ck):
+    """as many parameters as spatial dimensions (a SQUARE, non-symmetric position array): posterior and evidence against the closed form computed
+    with numpy from the library's own covariance of those positions"""
+    from inference.gp import GpLinearInverter, SquaredExponential, RationalQuadratic
+    from inference.gp.mean import ConstantMean
+    rng = np.random.default_rng(seed() + 170)
+    for p, kcls in ((2, SquaredExponential), (3, SquaredExponential), (2, RationalQuadratic), (4, SquaredExponential)):
+        pos = rng.uniform(-2, 2, size=(p, p)) * np.array([1.0, 3.0, 0.5, 2.0][:p])          # unequal scales between dimensions
+        A = rng.normal(size=(p + 1, p))
+        y = rng.normal(size=p + 1)
+        yerr = rng.uniform(0.2, 0.5, size=p + 1)
+        ck.case(("square", p, kcls.__name__))
+        try:
+            inv = GpLinearInverter(y=y, y_err=yerr, model_matrix=A, parameter_spatial_positions=pos.copy(), prior_covariance_function=kcls,
+                                   prior_mean_function=ConstantMean)
+            ref = kcls()
+            ref.pass_spatial_data(pos.copy())
+            nk = ref.n_params
+            cth = np.concatenate([[0.3], [-0.2] * (nk - 1 - p), np.log(np.array([0.8, 2.1, 0.6, 1.7][:p]))]) if nk >= 1 + p else np.full(nk, 0.1)
+            th = np.concatenate([[0.4], cth])
+            K = np.asarray(ref.build_covariance(cth), dtype=float)
+            m = np.full(p, 0.4)
+            S = np.diag(yerr ** 2)
+            J = A @ K @ A.T + S
+            want_mu = m + K @ A.T @ np.linalg.solve(J, y - A @ m)
+            want_S = K - K @ A.T @ np.linalg.solve(J, A @ K)
+            mu, Sig = inv.calculate_posterior(th)
+            mu2 = inv.calculate_posterior_mean(th)
+        except Exception as ex:
+            ck.violation("GpLinearInverter raised on a valid problem", {"positions": pos, "error": repr(ex)[:300]}, site="GpLinearInverter")
+            continue
+        if not (np.allclose(mu, want_mu, rtol=1e-8, atol=1e-8) and np.allclose(mu2, want_mu, rtol=1e-8, atol=1e-8) and np.allclose(Sig, want_S, rtol=1e-8, atol=1e-8)):
+            ck.violation("posterior = closed-form linear-Gaussian posterior (as many parameters as spatial dimensions, positions not symmetric)",
+                         {"positions": pos, "kernel": kcls.__name__, "want_mean": want_mu, "got_mean": np.asarray(mu), "mean_only": np.asarray(mu2)},
+                         site="GpLinearInverter.calculate_posterior:square-positions")
 
 
 def run(tier):
@@ -85,6 +122,18 @@ def run(tier):
             m_fresh, (m_fresh2, S_fresh2) = np.array(inv_new.calculate_posterior_mean(tm.copy())), inv_new.calculate_posterior(tm.copy())   # an inverter without history
             tm -= 0.25
             m_c = np.array(inv.calculate_posterior_mean(tm))
+            # the full posterior at one hyper-parameter vector, then the mean-only path at a vector with the SAME covariance parameters and
+            # other mean parameters: what an inverter without history returns
+            t2 = th.copy()
+            t2[:len(mth)] += 0.5
+            inv.calculate_posterior(th.copy())
+            m_mix = np.array(inv.calculate_posterior_mean(t2.copy()))
+            inv_new2 = GpLinearInverter(y=y, y_err=yerr, model_matrix=A, parameter_spatial_positions=pos,
+                                        prior_covariance_function=G.build_kernel(pb["kern"], d, p)[0], prior_mean_function=G.build_mean(pb["mean"])[0])
+            m_mix_fresh = np.array(inv_new2.calculate_posterior_mean(t2.copy()))
+            if len(mth) and not np.allclose(m_mix, m_mix_fresh, rtol=1e-12, atol=1e-12):
+                ck.violation("mean-only path after a full posterior at other mean hyper-parameters = the mean-only path of an inverter without history",
+                             {**idn, "theta_first": th, "theta_second": t2, "got": m_mix, "fresh": m_mix_fresh}, site="GpLinearInverter:stale-state")
             ck.case(str(idn) + "forms")
             if not (np.array_equal(g_i, g_f) and np.array_equal(np.asarray(mu_i, dtype=float), np.asarray(mu_f, dtype=float)) and np.array_equal(S_i, S_f)):
                 ck.violation("integer-typed hyper-parameters give the results of the equal float hyper-parameters",
@@ -214,4 +263,5 @@ def run(tier):
     except Exception as ex:
         ck.violation("GpLinearInverter raised (shared composite covariance object)", {"error": repr(ex)[:300]}, site="GpLinearInverter:independence")
     ck.traces += len(r.printed)
+    square_part(ck)
     return ck.finish()
